@@ -199,11 +199,45 @@ class UNewMismatch(Exception):
     super().__init__('code %s: %s' % (code, detail))
     self.code = code
 
+class URegistry(Exception):
+  # keeps a registry of its subclasses and refuses a second one of a name: a
+  # proxy SUBCLASS can be made once at most
+  registry = {}
+  def __init_subclass__(cls, **kw):
+    super().__init_subclass__(**kw)
+    if cls.__name__ in URegistry.registry:
+      raise RuntimeError('duplicate error class %s' % cls.__name__)
+    URegistry.registry[cls.__name__] = cls
+
+class UNotFound(URegistry):
+  pass
+
+class _FinalMeta(type):
+  def __new__(mcs, name, bases, ns):
+    if any(isinstance(b, _FinalMeta) for b in bases):
+      raise TypeError('%s is final' % bases[0].__name__)
+    return super().__new__(mcs, name, bases, ns)
+
+class UFinal(Exception, metaclass=_FinalMeta):
+  pass
+
+class UGroupDocs(ExceptionGroup):
+  # the subclassing recipe of the Python documentation: __new__ builds an
+  # instance of THIS class, whatever class it is given
+  def __new__(cls, errors, exit_code):
+    self = super().__new__(UGroupDocs, 'exit code: %d' % exit_code, errors)
+    self.exit_code = exit_code
+    return self
+  def derive(self, excs):
+    return UGroupDocs(excs, self.exit_code)
+
 class UBaseExc(BaseException):
   def __init__(self, why):
     super().__init__(why)
     self.why = why
 '''
+
+UNPROXYABLE = ('UNotFound', 'UFinal', 'UGroupDocs')
 
 USER_CTORS = [
     ('UPlain', "UPlain('plain', 1)"),
@@ -225,6 +259,9 @@ USER_CTORS = [
     ('UTypeErrInt', "UTypeErrInt()"),
     ('UNoArgsInit', "UNoArgsInit()"),
     ('UNewMismatch', "UNewMismatch(9, 'nine')"),
+    ('UNotFound', "UNotFound('nf')"),
+    ('UFinal', "UFinal('final')"),
+    ('UGroupDocs', "UGroupDocs([ValueError(1)], 3)"),
     ('UBaseExc', "UBaseExc('base')"),
 ]
 
@@ -472,6 +509,13 @@ def run(case):
           '%s injected at %s depth %d: caught.%s is %r, original.%s is %r' %
           (label, site, depth, n, got, n, want[n]))
     # --- message ---
+    if label.split('#')[0] in UNPROXYABLE:
+      # no subclass instance can stand in for such an exception (its class
+      # refuses subclassing, or its __new__ ignores the class it is given), so
+      # there is nothing that could carry an extended message; class, data and
+      # traceback (checked above and below) are what counts
+      lg.add(*obs)
+      continue
     s_orig = str_at_raise
     s = str(caught)
     if not s.startswith(s_orig):
